@@ -31,7 +31,10 @@ def with_parity(data, overlay=0):
 def rand_frame(rng, n=None):
     if n is None:
         n = 14 if rng.random() < 0.6 else 7
-    return [rng.randrange(256) for _ in range(n)]
+    f = [rng.randrange(256) for _ in range(n)]
+    if rng.random() < 0.06:
+        f = plant(rng, f, 0, n, aligned=(1, 4, n - 3))       # one frame in sixteen carries a constant mined from the source
+    return f
 
 
 def rand_frame_df(rng, df, n=None):
@@ -39,6 +42,8 @@ def rand_frame_df(rng, df, n=None):
     if n is None:
         n = 14 if df >= 16 else 7
     f = [rng.randrange(256) for _ in range(n)]
+    if rng.random() < 0.06:
+        f = plant(rng, f, 1, n, aligned=(1, 4, n - 3))
     f[0] = (df << 3) | (f[0] & 7)
     return f
 
@@ -162,8 +167,9 @@ def source_dictionary(sub=""):
     return out
 
 
-def plant(rng, frame, lo=0, hi=None, sub=""):
-    """copy of `frame` (list of byte values) with one mined constant written at a random byte offset inside [lo, hi)"""
+def plant(rng, frame, lo=0, hi=None, sub="", aligned=()):
+    """copy of `frame` (list of byte values) with one mined constant written at a byte offset inside [lo, hi): one of the field
+    starts in `aligned` (two times out of three, when given) or any offset"""
     d = source_dictionary(sub)
     f = list(frame)
     if not d:
@@ -173,5 +179,8 @@ def plant(rng, frame, lo=0, hi=None, sub=""):
     if len(t) > hi - lo:
         t = t[:hi - lo]
     at = rng.randrange(lo, hi - len(t) + 1)
+    ok = [a for a in aligned if lo <= a <= hi - len(t)]
+    if ok and rng.random() < 0.67:
+        at = ok[rng.randrange(len(ok))]
     f[at:at + len(t)] = list(t)
     return f
